@@ -49,11 +49,16 @@ def make_driver(cfg):
                 kids = [Child(pool) for _ in range(cfg.children)]
                 for k in kids:
                     k.start()
+                own = []
                 for op in cfg.parent_ops:
                     if op == "create":
-                        out["created"].append(pool.create())
+                        own.append(pool.create())
+                        out["created"].append(own[-1])
                     elif op == "flush":
                         pool.flush()
+                        own = []
+                    elif op == "remove":        # the parent removes the file it created last
+                        pool.remove(own.pop())
                 for k in kids:
                     k.join()
                 out["mid"] = (sorted(os.listdir(d)), sorted(os.path.basename(p) for p in pool))
@@ -99,6 +104,9 @@ def run_part(report, tier):
     plan = [(Cfg("child:create | parent:flush", ["flush"], ["create"]), None, 0, None),
             (Cfg("child:create,create | parent:create,flush", ["create", "flush"], ["create", "create"]), None, 0, None),
             (Cfg("child:create | parent:flush,create,flush", ["flush", "create", "flush"], ["create"]), None, 0, None),
+            (Cfg("child:create | parent:create,remove", ["create", "remove"], ["create"]), None, 0, None),
+            (Cfg("child:create,create | parent:create,create,remove,remove", ["create", "create", "remove", "remove"], ["create", "create"]),
+             2 if tier == "quick" else None, 0, None),
             (Cfg("2 children:create | parent:flush", ["flush"], ["create"], children=2), 3 if tier == "quick" else None, 0, None)]
     rule = report.cov.get("rule", "")
     try:
